@@ -19,10 +19,21 @@ var knownBaZi = [][4]string{
 }
 
 type c09gen struct {
-	r    *Rng
-	hot  []int
-	inv  bool
-	univ []ops.Op
+	r     *Rng
+	hot   []int
+	inv   bool
+	univ  []ops.Op
+	focus string // swarm: family of operations this run concentrates on ("" = none)
+}
+
+var focusKinds = map[string][]string{
+	"lmonth":  {"lmonth", "lmonth", "lmonth_next"},
+	"lyear":   {"lyear", "lyear", "lyear_next"},
+	"lunar":   {"lunar", "lunar", "ltime", "lunar_next", "tao", "foto"},
+	"solar":   {"solar2lunar", "solar2lunar", "eightchar", "solar", "jd2solar"},
+	"holiday": {"holiday", "holidays_ym", "holidays_year", "holidays_target", "solar_next", "salary"},
+	"nav":     {"week", "smonth", "season", "halfyear", "syear"},
+	"fortune": {"eightchar", "yun", "bazi"},
 }
 
 func (g *c09gen) year() int {
@@ -53,6 +64,14 @@ func clampYear(y int) int {
 
 func (g *c09gen) hotYear() int {
 	y := g.hot[g.r.Intn(len(g.hot))] + g.r.Pick([]int{-1, 0, 0, 0, 0, 1})
+	if g.r.Chance(0.12) {
+		// related keys: the periods a too-coarse cache key is likely to fold together
+		d := g.r.Pick([]int{12, 19, 60, 100, 400, 1000, 1024})
+		if g.r.Chance(0.5) {
+			d = -d
+		}
+		y += d
+	}
 	return clampYear(y)
 }
 
@@ -123,6 +142,9 @@ func (g *c09gen) baseOp() ops.Op {
 	w := []int{22, 16, 6, 9, 3, 8, 3, 3, 3, 5, 3,
 		2, 2, 2, 2, 2, 4, 2, 2, 1, 1, 1, 1, 3, 3, 3}
 	k := kinds[r.Weighted(w)]
+	if fk, ok := focusKinds[g.focus]; ok && r.Chance(0.65) {
+		k = fk[r.Intn(len(fk))]
+	}
 	switch k {
 	case "solar2lunar", "solar":
 		return ops.Op{K: k, A: g.solarArgs()}
@@ -151,6 +173,13 @@ func (g *c09gen) baseOp() ops.Op {
 		if r.Chance(0.1) {
 			l := knownLeap[r.Intn(len(knownLeap))]
 			y, m = l[0], -l[1]
+		}
+		if g.focus == "lmonth" && k == "lmonth" && r.Chance(0.5) {
+			// every (year, month) combination near the hot years, leap-month numbers included
+			m = r.Range(-12, 12)
+			if m == 0 {
+				m = 12
+			}
 		}
 		if k == "lmonth" {
 			return ops.Op{K: k, A: []int{y, m}}
@@ -273,6 +302,15 @@ func C09(seed uint64, run int) *spec.Spec {
 	for i := 0; i < nHot; i++ {
 		g.hot = append(g.hot, clampYear(g.year()))
 	}
+	if r.Chance(0.5) {
+		g.focus = r.PickS([]string{"lmonth", "lyear", "lunar", "solar", "holiday", "nav", "fortune", "lmonth", "lyear", "lunar", "solar"})
+		if r.Chance(0.6) {
+			g.hot = g.hot[:1]
+		}
+		if g.focus == "lmonth" && r.Chance(0.5) {
+			g.hot[0] = knownLeap[r.Intn(len(knownLeap))][0]
+		}
+	}
 	f := &s.Config.Faults
 	if kind == 2 {
 		f.InvalidPanic = r.Chance(0.6)
@@ -297,6 +335,9 @@ func C09(seed uint64, run int) *spec.Spec {
 		nTasks = r.Range(2, 5)
 	}
 	nUniv := r.Range(6, 18)
+	if g.focus != "" {
+		nUniv = r.Range(10, 24)
+	}
 	for i := 0; i < nUniv; i++ {
 		g.add(g.wrap(g.baseOp()))
 	}
